@@ -16,7 +16,8 @@ def run(ctx):
          ('d3.h3.n2', D(3, 3, 2, 1), [-3, -1, 1, -1, 0, 0], 240, ''),
          ('d3.h2.n4', D(3, 2, 4, 1), [-5, -1, 0, -1, 0, 0], 200, '4 particles over the 8 leaves, block sizes 1..5'),
          ('d3.h21.n2.deep', D(3, 21, 2, 3), [-2, -1, 1, -1, 0, 0], 240, 'deep sparse tree at the largest Dim-3 height whose indices fit 62 bits, then rebuild'),
-         ('d2.h31.n2.deep', D(2, 31, 2, 3), [-2, -1, 0, -1, 0, 0], 240, 'Dim 2, height 31 (60-bit indices)')]
+         ('d2.h32.n2.deep', D(2, 32, 2, 3), [-2, -1, 0, -1, 0, 0], 240, 'Dim 2, height 32 (62-bit indices)'),
+         ('d1.h52.n3.deep', D(1, 52, 3, 3), [-3, -1, 1, -1, 0, 0], 240, 'Dim 1, height 52 (the largest height at which the half lattice is exact in double), then rebuild')]
     if not q:
         T += [('d1.h5.n4', D(1, 5, 4, 1), [-5, -1, 1, -1, 0, 0], 900, ''), ('d1.h8.n3', D(1, 8, 3, 1), [-4, -1, 0, -1, 0, 0], 1800, ''),
               ('d2.h4.n3', D(2, 4, 3, 1), [-4, -1, 0, -1, 0, 0], 1800, ''), ('d2.h5.n2', D(2, 5, 2, 1), [-3, -1, 1, -1, 0, 0], 1500, ''),
